@@ -7,6 +7,8 @@
 #include <gcrypt.h>
 #include <dirent.h>
 #include <fstream>
+#include <unistd.h>
+#include <algorithm>
 #include <iostream>
 
 namespace c12 {
